@@ -122,6 +122,19 @@ func mkTable(r *hutil.Rng, variant int, sepKeys bool) table {
 			t.pairs = append(t.pairs, all[i-1])
 			t.setup = append(t.setup, fmt.Sprintf("INSERT INTO t_doc (ID,docname,ver,body) VALUES (%d,'%s',%s,'%s')", i, all[i-1][0], all[i-1][1], str(r.Intn(5))))
 		}
+	case 6, 7:
+		// non-integer numeric keys with large and small magnitudes (rendered with an exponent by %v)
+		t.name, t.pk = "t_px", []int{0}
+		ty := "DOUBLE"
+		if variant == 7 {
+			t.name, ty = "t_dc", "DECIMAL(14,5)"
+		}
+		t.cols = []ColMeta{{"amt", "num", false}, {"v", "int", false}}
+		t.ddl = "CREATE TABLE " + t.name + " (amt " + ty + " NOT NULL, v INT NOT NULL DEFAULT 0, PRIMARY KEY (amt))"
+		t.nkeys = 6
+		for i, a := range []string{"1250000", "12.5", "0.00005", "3", "2500000.5", "10000000"} {
+			t.setup = append(t.setup, fmt.Sprintf("INSERT INTO %s (amt,v) VALUES (%s,%d)", t.name, a, i))
+		}
 	case 4:
 		t.name, t.pk = "t_rev", []int{0, 1}
 		t.cols = []ColMeta{{"a", "int", false}, {"b", "str", false}, {"v", "int", true}}
